@@ -415,8 +415,8 @@ fn hist_prop() -> super::hist::HistProp {
         focus: &["C08"],
         opts: HistOpts { mechs: vec![2], max_ops: 30, deliver_weight: 10, app_attrs: true, ..HistOpts::default() },
         drain: true,
-        quick: 10_000,
-        thorough: 200_000,
+        quick: 60_000,
+        thorough: 600_000,
         rule: RULE,
         assumptions: &[],
         nontrivial: |_, s| s.lt_states_seen.count_ones() >= 3,
@@ -430,7 +430,7 @@ pub fn run(ctx: &Ctx) -> RunResult {
         "positive expectations only where the property is explicit (401 => retry, 438 => retry with the new nonce, authentic success => delivered, indications refused); the choice among offered algorithms is read from the client's request".into(),
         "recorded deviations (KNOWN_FINDINGS.txt) are excluded by construction through two lenient server branches, each counted".into(),
     ];
-    rr.absorb(run_prop(ctx, "script", ctx.pick(12_000, 250_000), arb_script, |s, st| check_script(s, ctx, st)));
+    rr.absorb(run_prop(ctx, "script", ctx.pick(100_000, 1_000_000), arb_script, |s, st| check_script(s, ctx, st)));
     let hp = hist_prop();
     let opts = hp.opts.clone();
     rr.absorb(run_prop(ctx, "history", ctx.pick(hp.quick, hp.thorough), move || arb_history(opts.clone()), |h, st| super::hist::check(&hp, ctx, h, st)));
